@@ -17,7 +17,7 @@ from dsmc.commitworld import TableWorld, outcome_of
 from dsmc.env import ENV
 from dsmc.reader import canon_row
 from dsmc.report import HarnessError, Report, pmap
-from dsmc.sched import Execution, Explorer
+from dsmc.sched import DONE, Execution, Explorer
 from dsmc.tables import row, schema
 
 GRACE_MS = 3600_000
@@ -36,7 +36,11 @@ class C06World(TableWorld):
     def __init__(self, backend: str, variant: str, rep: Report, cfg: Dict[str, Any]):
         self.variant = variant
         n = {"commit_old": 2, "rollback_old": 2, "append_fresh": 2, "commit_old+committer": 3,
-             "commit_old+fresh": 3, "two_old": 3, "append_fresh_2gc": 2, "append_fresh_2collectors": 3}[variant]
+             "commit_old+fresh": 3, "two_old": 3, "append_fresh_2gc": 2, "append_fresh_2collectors": 3,
+             "commit_old+envcommit": 3, "append_fresh+envgc": 3}[variant]
+        # the second collector of the two-collector variant is the run "hours later": it starts while the writer is
+        # stalled or after the writer has finished (a collector that starts earlier is G)
+        self.initially_frozen = ("H",) if variant == "append_fresh_2collectors" else ()
         self.max_pauses = cfg.get("max_pauses", 0)
         super().__init__(backend, "separate", n, build_template, name="c06")
         self.rep, self.cfg = rep, cfg
@@ -57,7 +61,8 @@ class C06World(TableWorld):
         super().reset()
         self.txs, self.tx_files = [], []
         self.gc_open, self.gc_runs = 0, []
-        n_old = {"commit_old": 1, "rollback_old": 1, "commit_old+committer": 1, "commit_old+fresh": 1, "two_old": 2}.get(self.variant, 0)
+        n_old = {"commit_old": 1, "rollback_old": 1, "commit_old+committer": 1, "commit_old+fresh": 1, "two_old": 2,
+                 "commit_old+envcommit": 1}.get(self.variant, 0)
         for k in range(n_old):
             tx = self.handle(1 + k).new_transaction().begin()
             tx.append_data([row(50 + k)])
@@ -65,6 +70,8 @@ class C06World(TableWorld):
             for f in list(tx._written_files) + list(tx._inflight_markers):
                 self._age(f)
             self.tx_files.append(tx._written_files[0])
+        self.env_commits = 0
+        self.env_gcs = 0
 
     def _collect(self, handle):
         """One collection run; its virtual start/end instants are recorded: the statement only speaks about runs
@@ -88,13 +95,13 @@ class C06World(TableWorld):
         else:
             out = [("G", lambda: self._collect(g))]
         v = self.variant
-        if v in ("commit_old", "commit_old+committer", "commit_old+fresh", "two_old"):
+        if v in ("commit_old", "commit_old+committer", "commit_old+fresh", "two_old", "commit_old+envcommit"):
             out.append(("T", self.txs[0].commit))
         if v == "rollback_old":
             out.append(("T", self.txs[0].rollback))
         if v == "two_old":
             out.append(("U", self.txs[1].commit))
-        if v in ("append_fresh", "append_fresh_2gc", "append_fresh_2collectors"):
+        if v in ("append_fresh", "append_fresh_2gc", "append_fresh_2collectors", "append_fresh+envgc"):
             h = self.handle(1)
             out.append(("T", lambda: h.append_records([row(60)])))
         if v in ("commit_old+committer", "commit_old+fresh"):
@@ -106,6 +113,19 @@ class C06World(TableWorld):
     def extra_options(self, ex: Execution):
         opts = []
         for a in ex.actors:
+            if a.name == "H" and a.frozen and "H" in self.initially_frozen:
+                t = [b for b in ex.actors if b.name == "T"][0]
+                if t.frozen or t.state == DONE:
+                    opts.append(("start", "H"))
+            if a.name == "T" and self.variant == "commit_old+envcommit" and self.env_commits == 0 and a.state != DONE \
+                    and self._metadata_lock_free():
+                # environment event: another writer's whole commit lands here, as one atomic step (so that the
+                # transaction loses its race and retries, without a third actor's interleavings)
+                opts.append(("other-writer-commits", "C"))
+            if a.name == "T" and self.variant == "append_fresh+envgc" and self.env_gcs == 0 and a.state != DONE \
+                    and a.steps > 0 and not a.frozen and self.gc_open == 0:
+                # environment event: a whole collection run by another process, as one atomic step
+                opts.append(("other-process-collects", "E"))
             if a.name != "T":
                 continue
             if a.frozen:
@@ -116,12 +136,35 @@ class C06World(TableWorld):
                 opts.append(("stall+2h", "T"))
         return opts
 
+    def _metadata_lock_free(self) -> bool:
+        """Another writer can only commit while nobody holds the table's metadata lock."""
+        if self.backend == "local":
+            return self.adapter.flock_holder is None
+        return f"{self.location}/.locks/metadata.lock" not in self.s3w.s3.objs
+
     def apply_extra(self, ex: Execution, opt) -> None:
         kind, name = opt
+        if kind == "other-process-collects":
+            self.env_gcs += 1
+            ENV.set_actor("envG")
+            try:
+                self.handle(2).garbage_collect(GRACE_MS)
+            finally:
+                ENV.set_actor("setup")
+            return
+        if kind == "other-writer-commits":
+            self.env_commits += 1
+            ENV.set_actor("envC")
+            try:
+                if not self.handle(2).append_records([row(70)]):
+                    raise HarnessError("the environment's commit failed")
+            finally:
+                ENV.set_actor("setup")
+            return
         for a in ex.actors:
             if a.name.split(".", 1)[0] == name:
-                a.frozen = (kind != "resume")
-        if kind != "resume":
+                a.frozen = kind not in ("resume", "start")
+        if kind not in ("resume", "start"):
             ENV.clock = round(ENV.clock + OLD_S, 6)
             ex.jumps += 1
 
@@ -139,7 +182,9 @@ class C06World(TableWorld):
         else:
             cur = set(st.current_rows())
             want = {"T": [50], "U": [51], "C": [70]}
-            if self.variant in ("append_fresh", "append_fresh_2gc", "append_fresh_2collectors"):
+            if self.env_commits and canon_row(row(70)) not in cur:
+                problems.append("the environment's acknowledged commit is missing from the current snapshot")
+            if self.variant in ("append_fresh", "append_fresh_2gc", "append_fresh_2collectors", "append_fresh+envgc"):
                 want["T"] = [60]
             if self.variant == "rollback_old":
                 want.pop("T")
@@ -167,7 +212,7 @@ def run_config(cfg: Dict[str, Any]) -> Dict[str, Any]:
     w = C06World(cfg["backend"], cfg["variant"], rep, cfg)
     try:
         exp = Explorer(w, bound=cfg.get("bound"), seed=cfg["seed"], clock_mode="TICK", horizon=4000,
-                       max_exec=cfg.get("max_exec"), has_extra=bool(cfg.get("max_pauses")))
+                       max_exec=cfg.get("max_exec"), has_extra=bool(cfg.get("max_pauses") or cfg.get("env_commit")))
         exp.on_complete = w.check
         stats = exp.explore()
         exp.visited.clear()
@@ -201,7 +246,7 @@ def configs(tier: str, seed: int) -> List[Dict[str, Any]]:
         out.append({"id": f"{backend}/{variant}" + (f"/stall{max_pauses}" if max_pauses else "")
                     + (f"/b{bound}" if bound is not None else ""), "backend": backend,
                     "variant": variant, "bound": bound, "tier": tier, "seed": seed, "sample": sample,
-                    "max_pauses": max_pauses})
+                    "max_pauses": max_pauses, "env_commit": variant.endswith("+envcommit") or variant.endswith("+envgc")})
 
     for b in ("local", "s3"):
         add(b, "commit_old", sample=(b == "s3"))
@@ -213,8 +258,16 @@ def configs(tier: str, seed: int) -> List[Dict[str, Any]]:
         if tier != "quick":
             add(b, "append_fresh_2gc", bound=2, max_pauses=1)
         # two collection runs (separate collector processes) around a stalled writer; a conflicting committer + stall
-        add(b, "append_fresh_2collectors", bound=1, max_pauses=1)
-        add(b, "commit_old+committer", bound=1, max_pauses=1)
+        if tier != "quick":
+            add(b, "append_fresh_2collectors", bound=1, max_pauses=1)
+            add(b, "commit_old+envcommit")
+        # the transaction loses its first commit attempt against another writer (atomic environment commit) and retries
+        add(b, "commit_old+envcommit", bound=1)
+        # a whole collection run of another process lands atomically at any point of the append; the writer may stall
+        # for 2 h afterwards and the explored collector then runs
+        add(b, "append_fresh+envgc", bound=1, max_pauses=1)
+        if tier != "quick":
+            add(b, "commit_old+committer", bound=0, max_pauses=1)
         if tier == "quick":
             add(b, "commit_old+committer", bound=1)
         else:
@@ -247,7 +300,7 @@ def replay(case: Dict[str, Any]) -> Dict[str, Any]:
     rep = Report("C06", cfg["tier"], cfg["seed"], "model_checking")
     w = C06World(cfg["backend"], cfg["variant"], rep, cfg)
     try:
-        exp = Explorer(w, seed=cfg["seed"], clock_mode="TICK", has_extra=bool(cfg.get("max_pauses")))
+        exp = Explorer(w, seed=cfg["seed"], clock_mode="TICK", has_extra=bool(cfg.get("max_pauses") or cfg.get("env_commit")))
         exp.shared_keys, exp.shared_prefixes = set(d["shared_keys"]), set(d["shared_prefixes"])
         ex = exp.execute(d["choices"])
         w.check(ex)
